@@ -8,7 +8,9 @@
    emitted with everything the real Config must show ("CASE <json>"). *)
 EXTENDS Config, Json
 
-CONSTANTS Wide,          \* FALSE: quick pools, TRUE: full pools
+CONSTANTS WideA,         \* FALSE: quick pool for option a, TRUE: full pool
+          WideB,         \* likewise for option b and for [DEFAULT]
+          NNames,        \* how many of the five section names are used
           MaxSections
 
 A == 97  B == 98  C == 99
@@ -31,12 +33,13 @@ PoolAWide == PoolAQuick \cup
                <<36, 123, 99, 125>>,                 \* ${c}   (environment wins over the option)
                <<36, 123, 68, 69, 70, 65, 85, 76, 84, 58, 98, 125>>,  \* ${DEFAULT:b}
                <<36, 123, 116, 58, 98, 58, 99, 125>>}    \* ${t:b:c}
-PoolA == IF Wide THEN PoolAWide ELSE PoolAQuick
+PoolA == IF WideA THEN PoolAWide ELSE PoolAQuick
 \* option b: absent (<<-1>>), y, ${a}, $$
-PoolB == IF Wide THEN {Missing, <<121>>, <<36, 123, 97, 125>>, <<36, 36>>} ELSE {Missing, <<121>>}
-Names == {<<115>>, <<116>>, <<115, 46, 117>>, <<116, 46, 117>>, <<115, 46, 117, 46, 119>>}
+PoolB == IF WideB THEN {Missing, <<121>>, <<36, 123, 97, 125>>, <<36, 36>>} ELSE {Missing, <<121>>}
+AllNames == << <<115>>, <<115, 46, 117>>, <<116>>, <<116, 46, 117>>, <<115, 46, 117, 46, 119>> >>   \* s s.u t t.u s.u.w
+Names == {AllNames[i] : i \in 1..NNames}
 DefaultsChoices == {<<>>, << <<<<98>>, <<100, 121>>>> >>} \cup
-                   (IF Wide THEN { << <<<<99>>, <<111>>>>, <<<<98>>, <<36, 123, 97, 125>>>> >> } ELSE {})
+                   (IF WideB THEN { << <<<<99>>, <<111>>>>, <<<<98>>, <<36, 123, 97, 125>>>> >> } ELSE {})
 
 NameSeqs == {ns \in UNION {[1..m -> Names] : m \in 1..MaxSections} : \A i, j \in 1..Len(ns) : ns[i] = ns[j] => i = j}
 Opts(a, b) == IF b = Missing THEN << <<<<A>>, a>> >> ELSE << <<<<A>>, a>>, <<<<B>>, b>> >>
@@ -57,23 +60,28 @@ Next == \/ /\ shape = Start
 Spec == Init /\ [][Next]_vars
 
 On == cfg # Null
-LawContract == On => ContractOK(cfg)
-LawAsBuilt == On => AsBuiltOK(cfg)
-LawReplace == On => ReplaceOK(cfg)
-LawStrictAsBuilt == On => (WellFormed(cfg) => RoundTrip(cfg, FALSE))    \* violated by the as-built model (control)
+TheView == IF Constructible(cfg) THEN ViewSeq(cfg) ELSE <<>>
+Laws == On => LET view == TheView IN
+              /\ ContractOKV(cfg, view) /\ AsBuiltOKV(cfg, view) /\ ReplaceOKV(cfg, view)
+\* the same, separately (to name the broken law), and the control the as-built model violates
+LawContract == On => ContractOKV(cfg, TheView)
+LawAsBuilt == On => AsBuiltOKV(cfg, TheView)
+LawReplace == On => ReplaceOKV(cfg, TheView)
+LawStrictAsBuilt == On => (WellFormedV(cfg, TheView) => RoundTrip(TheView, FALSE))
 
-\* sequences only, so that the JSON is canonical
-ViewSeq(c) == LET vis == SelectSeq(c.sections, LAMBDA sec : sec.name \in Visible(c)) IN
-              [j \in 1..Len(vis) |-> [name |-> vis[j].name, opts |-> SectionView(c, vis[j].name)]]
-Emit == On => PrintT("CASE " \o ToJson(
+Emit == On => LET view == TheView
+                  cons == Constructible(cfg)
+                  wf == WellFormedV(cfg, view)
+                  dev == wf /\ HasLiteralDollar(view)
+              IN PrintT("CASE " \o ToJson(
   [cfg |-> cfg,
-   ok |-> IF Constructible(cfg) THEN 1 ELSE 0,
-   wf |-> IF WellFormed(cfg) THEN 1 ELSE 0,
-   view |-> IF Constructible(cfg) THEN ViewSeq(cfg) ELSE <<>>,
-   dict |-> IF Constructible(cfg) THEN ToDict(cfg, FALSE, FALSE) ELSE ErrD,
-   dictr |-> IF Constructible(cfg) THEN ToDict(cfg, TRUE, FALSE) ELSE ErrD,
-   dev |-> IF WellFormed(cfg) /\ HasLiteralDollar(cfg) THEN 1 ELSE 0,
-   dictc |-> IF WellFormed(cfg) /\ HasLiteralDollar(cfg) THEN ToDict(cfg, FALSE, TRUE) ELSE <<>>,
-   dictrc |-> IF WellFormed(cfg) /\ HasLiteralDollar(cfg) THEN ToDict(cfg, TRUE, TRUE) ELSE <<>>,
-   rt |-> IF WellFormed(cfg) /\ RoundTrip(cfg, FALSE) THEN 1 ELSE 0]))
+   ok |-> IF cons THEN 1 ELSE 0,
+   wf |-> IF wf THEN 1 ELSE 0,
+   view |-> view,
+   dict |-> IF cons THEN DictOf(view, FALSE, FALSE) ELSE ErrD,
+   dictr |-> IF cons THEN DictOf(view, TRUE, FALSE) ELSE ErrD,
+   dev |-> IF dev THEN 1 ELSE 0,
+   dictc |-> IF dev THEN DictOf(view, FALSE, TRUE) ELSE <<>>,
+   dictrc |-> IF dev THEN DictOf(view, TRUE, TRUE) ELSE <<>>,
+   rt |-> IF wf /\ RoundTrip(view, FALSE) THEN 1 ELSE 0]))
 =============================================================================
